@@ -34,7 +34,7 @@ def schemes_for(ctx, k=1):
     return [SCHEMES[0]] + rng.sample(SCHEMES[1:], k)
 
 
-ADV_KINDS = ["valid", "wrongKey", "wrongRound", "wrongPrev", "otherPrev", "truncated", "bitflip", "nonMember", "replayOwn", "empty"]
+ADV_KINDS = ["valid", "wrongKey", "wrongRound", "wrongPrev", "otherPrev", "truncated", "bitflip", "nonMember", "validNonMember", "replayOwn", "empty"]
 
 
 # ----------------------------------------------------------------------------- seeded drivers
@@ -345,7 +345,15 @@ def sc_reshare(rng, shape, k):
     steps = [{"op": "start", "node": 0, "mode": "start"}, {"op": "start", "node": 1, "mode": "start"}, {"op": "start", "node": 2, "mode": "start"}]
     steps += _round_steps(0, "random", "r1", live=False) + _round_steps(10, "random", "r2", live=False)
     steps.append({"op": "reshare", "nodes": members, "t": t2, "round": 4})
-    steps += _round_steps(20, "random", "r3", live=False)
+    # round 3, the last but one of the old group: the partials of the members that will leave are delivered first
+    # (they are seen by everybody between the announcement of the new group and the switch)
+    steps.append({"op": "advance", "node": -1, "to": 20})
+    for v in range(3):
+        if v not in members:
+            for m in range(3):
+                if m != v:
+                    steps.append({"op": "deliver", "from": v, "node": m, "round": 3})
+    steps += [{"op": "deliverall", "order": "random"}, {"op": "quiesce", "label": "r3"}]
     # joiners come up in catch-up mode before the transition (joinNetwork -> StartBeacon(catchup))
     for j in members:
         if j > 2:
@@ -358,6 +366,11 @@ def sc_reshare(rng, shape, k):
             # a leaver's partial made with the OLD share must not count any more
             for m in members:
                 steps.append({"op": "adv", "node": m, "kind": "oldEpoch", "as": v, "round": 5})
+    # a partial that VERIFIES against the new polynomial but carries a share index that no member of the new group
+    # holds (e.g. the index a leaver had): it must not be accepted, let alone count
+    for m in members:
+        for ghost in range(len(members), len(members) + 3):
+            steps.append({"op": "adv", "node": m, "kind": "validNonMember", "as": ghost, "round": 5})
     steps += _round_steps(40, "random", "r5")
     for v in range(3):
         if v not in members:
@@ -566,7 +579,7 @@ def scenarios_for(ctx, prop):
             out.append(sc_synced_then_needed(rng, n, t, k))
     if prop == "C07":
         shapes = ["same", "add1", "remove1", "replace1", "tup", "add2", "replacefirst"]
-        for k, sh in enumerate(shapes if not q else rng.sample(shapes[:-1], 2) + ["replacefirst"]):   # the index-shifting shape always runs
+        for k, sh in enumerate(shapes if not q else [rng.choice(["same", "add1", "replace1", "tup", "add2"]), "remove1", "replacefirst"]):   # a leaver's index vanishing and every index shifting always run
             out.append(sc_reshare(rng, sh, k))
         out.append(sc_reshare_early(rng, 0))
         out.append(sc_reshare_late(rng, 0))
@@ -574,6 +587,8 @@ def scenarios_for(ctx, prop):
         out.append(sc_reshare_switch_race(rng, 0))
     if prop in ("C01", "C03"):
         out.append(sc_reshare_early(rng, 0))
+    if prop == "C03":
+        out.append(sc_reshare(rng, "remove1", 0))     # a valid partial under an index that no member holds any more
     return out
 
 
